@@ -7,15 +7,15 @@ Require Import UV.Gen.Consts UV.C04.Model UV.C04.Proofs UV.C04.ProofsLazy.
    interleaving with the recorder; unless the instant lies between the two size updates of a
    record with payload, the data file is made of whole records that form a prefix of the
    eager trace of `ops` *)
-Theorem killed_trace_is_prefix_of_execution cap ops sched :
+Theorem killed_trace_is_prefix_of_execution single cap ops sched :
   wf_ops [] ops = true ->
   let recs := concat (snd (ops_run [] ops)) in
-  let s := run cap sched (init recs) in
-  in_window s = false ->
+  let s := run single cap sched (init recs) in
+  in_window single s = false ->
   exists k, match_recs (firstn k (eager [] ops)) (file (finish s)) = true.
 Proof.
   intros Hwf recs s Hw.
-  destruct (prefix_outside_window cap recs sched Hw) as [Hm [[rest Hr] _]]. fold s in Hm, Hr.
+  destruct (prefix_outside_window single cap recs sched Hw) as [Hm [[rest Hr] _]]. fold s in Hm, Hr.
   destruct (lazy_is_prefix_of_eager ops Hwf) as [rest' He]. fold recs in He.
   exists (length (done s)).
   assert (Hfn : firstn (length (done s)) (eager [] ops) = done s).
@@ -28,15 +28,15 @@ Qed.
 (* the crash handler ran to completion (the thread stored every record of `ops` and of the
    flush) before the process died: the file is the whole eager trace - every open call has its
    ENTRY record *)
-Theorem crashed_trace_is_complete cap ops sched :
+Theorem crashed_trace_is_complete single cap ops sched :
   wf_ops [] ops = true ->
   let recs := concat (snd (ops_run [] ops)) ++ segv_flush (fst (ops_run [] ops)) in
-  let s := run cap sched (init recs) in
+  let s := run single cap sched (init recs) in
   pc s = PIdle -> todo s = [] ->
   match_recs (eager [] ops) (file (finish s)) = true.
 Proof.
   intros Hwf recs s Hpc Ht.
-  pose proof (complete_run cap recs sched Hpc Ht) as H. fold s in H.
+  pose proof (complete_run single cap recs sched Hpc Ht) as H. fold s in H.
   unfold recs in H at 1. rewrite (lazy_plus_flush_is_eager ops Hwf) in H. exact H.
 Qed.
 
@@ -49,7 +49,7 @@ Definition nv_sched : list lab :=
   repeat LP 20 ++ [LR; LR; LW] ++ repeat LP 25 ++ [LR; LW; LR; LR; LW] ++ repeat LP 40.
 Example nv_complete :
   wf_ops [] nv_ops = true /\
-  let s := run 48 nv_sched (init (concat (snd (ops_run [] nv_ops)) ++ segv_flush (fst (ops_run [] nv_ops)))) in
-  pc s = PIdle /\ todo s = [] /\ in_window s = false /\ length (bufs s) = 2 /\ length (file s) = 80 /\ shl s = [0]
+  let s := run false 48 nv_sched (init (concat (snd (ops_run [] nv_ops)) ++ segv_flush (fst (ops_run [] nv_ops)))) in
+  pc s = PIdle /\ todo s = [] /\ in_window false s = false /\ length (bufs s) = 2 /\ length (file s) = 80 /\ shl s = [0]
   /\ match_recs (eager [] nv_ops) (file (finish s)) = true.
 Proof. vm_compute. repeat split; reflexivity. Qed.
